@@ -31,6 +31,7 @@ import (
 	"github.com/consensys/gnark/backend/witness"
 	"github.com/consensys/gnark/constraint"
 	"github.com/consensys/gnark/constraint/solver"
+	"github.com/consensys/gnark/frontend"
 	"github.com/consensys/gnark/logger"
 	"github.com/consensys/gnark/std"
 	"github.com/consensys/gnark/test"
@@ -154,6 +155,17 @@ func TestMain(m *testing.M) {
 			return o.Violation
 		})
 	}
+	ev.RegisterReplay("gkr-poseidon2", func(raw json.RawMessage) string {
+		var c P2Case
+		if err := json.Unmarshal(raw, &c); err != nil {
+			return ""
+		}
+		o, harness := runP2(c)
+		if harness != "" {
+			fmt.Println("HARNESS ERROR:", harness)
+		}
+		return o.Violation
+	})
 	ev.Main(m)
 }
 
@@ -220,7 +232,7 @@ func sameInts(a, b []*big.Int) bool {
 
 // solveDetached solves a system whose GkrInfo has been detached, with the
 // harness's overrides wrapping the genuine hints.
-func solveDetached(curve string, sys prog.System, w any, info constraint.GkrInfo, adv *adversary, p *big.Int) (*record, error) {
+func solveDetached(curve string, sys prog.System, w frontend.Circuit, info constraint.GkrInfo, adv *adversary, p *big.Int, extra ...solver.Option) (*record, error) {
 	rec := &record{}
 	gs, gp := genuineHints(curve, info, info.HashName)
 	solveWrap := func(mod *big.Int, ins, outs []*big.Int) error {
@@ -276,7 +288,8 @@ func solveDetached(curve string, sys prog.System, w any, info constraint.GkrInfo
 		solver.OverrideHint(info.SolveHintID, solveWrap),
 		solver.OverrideHint(info.ProveHintID, proveWrap),
 	}
-	wit, err := prog.Witness(prog.FieldByName(curve), w.(*gkrCircuit))
+	opts = append(opts, extra...) // later overrides of the same hint win
+	wit, err := prog.Witness(prog.FieldByName(curve), w)
 	if err != nil {
 		return rec, fmt.Errorf("harness: witness: %v", err)
 	}
